@@ -61,6 +61,10 @@ def gen_problem(rng, max_w=4, max_h=4, max_vertices=10, faults=True):
         cons.append(["endpoint", devs[0], l])
         if [chip[0], chip[1], l] not in dead_links:
             dead_links.append([chip[0], chip[1], l])
+        if nv >= 2 and rng.random() < 0.4:          # the device shares its chip with another vertex
+            other = rng.choice([i for i in ids if i != devs[0]])
+            if not any(c[0] == "location" and c[1] == other for c in cons):
+                cons.append(["samechip", [devs[0], other]])
     # orthogonal keys: distinct values under a common mask
     nbits = 6
     vals = rng.sample(range(1 << nbits), len(nets))
